@@ -1,5 +1,818 @@
 package main
 
-import "verifharness/kit"
+import (
+	"context"
+	"fmt"
+	"os"
+	"sort"
+	"strings"
+	"time"
 
-func runSolve(c *kit.Ctx, r *kit.Rand, idx int) {}
+	"github.com/samber/lo"
+	corev1 "k8s.io/api/core/v1"
+	"k8s.io/apimachinery/pkg/api/resource"
+	metav1 "k8s.io/apimachinery/pkg/apis/meta/v1"
+	"k8s.io/apimachinery/pkg/types"
+	"k8s.io/apimachinery/pkg/util/sets"
+	"k8s.io/client-go/tools/record"
+	clock "k8s.io/utils/clock/testing"
+	"sigs.k8s.io/controller-runtime/pkg/client/interceptor"
+
+	v1 "sigs.k8s.io/karpenter/pkg/apis/v1"
+	"sigs.k8s.io/karpenter/pkg/cloudprovider"
+	"sigs.k8s.io/karpenter/pkg/cloudprovider/fake"
+	"sigs.k8s.io/karpenter/pkg/controllers/dynamicresources/deviceallocation"
+	"sigs.k8s.io/karpenter/pkg/controllers/provisioning"
+	provscheduling "sigs.k8s.io/karpenter/pkg/controllers/provisioning/scheduling"
+	"sigs.k8s.io/karpenter/pkg/controllers/state"
+	"sigs.k8s.io/karpenter/pkg/events"
+	"sigs.k8s.io/karpenter/pkg/scheduling"
+	"sigs.k8s.io/karpenter/pkg/state/virtualpods"
+	"sigs.k8s.io/karpenter/pkg/test"
+
+	"verifharness/kit"
+)
+
+// ------------------------------------------------------------------ scenario description (also the replay input)
+
+const (
+	zoneKey = corev1.LabelTopologyZone
+	hostKey = corev1.LabelHostname
+	ctKey   = v1.CapacityTypeLabelKey
+	teamKey = "example.com/team"
+	taintK  = "dedicated"
+
+	kfAffinityTwoDomains = "self-affinity-bootstrap-leaves-node-undetermined"
+)
+
+var allZones = []string{"z1", "z2", "z3"}
+var interestKeys = []string{zoneKey, ctKey, teamKey, hostKey}
+
+type sExpr struct {
+	Key  string   `json:"key"`
+	Op   string   `json:"op"`
+	Vals []string `json:"values,omitempty"`
+}
+type sSel struct {
+	Nil   bool              `json:"nil,omitempty"`
+	ML    map[string]string `json:"matchLabels,omitempty"`
+	Exprs []sExpr           `json:"matchExpressions,omitempty"`
+}
+type sTerm struct {
+	Key        string   `json:"topologyKey"`
+	Sel        sSel     `json:"selector"`
+	Namespaces []string `json:"namespaces,omitempty"`
+	NsSel      *sSel    `json:"namespaceSelector,omitempty"`
+	Preferred  bool     `json:"preferred,omitempty"`
+}
+type sSpread struct {
+	Key        string   `json:"topologyKey"`
+	MaxSkew    int32    `json:"maxSkew"`
+	MinDomains *int32   `json:"minDomains,omitempty"`
+	Sel        sSel     `json:"selector"`
+	MLK        []string `json:"matchLabelKeys,omitempty"`
+	TaintHonor *bool    `json:"nodeTaintsPolicyHonor,omitempty"`
+	AffHonor   *bool    `json:"nodeAffinityPolicyHonor,omitempty"`
+	Anyway     bool     `json:"scheduleAnyway,omitempty"`
+}
+type sPod struct {
+	Name      string            `json:"name"`
+	NS        string            `json:"ns"`
+	Labels    map[string]string `json:"labels"`
+	CPU       string            `json:"cpu"`
+	NodeSel   map[string]string `json:"nodeSelector,omitempty"`
+	ZoneIn    []string          `json:"zoneIn,omitempty"`
+	ZoneNotIn []string          `json:"zoneNotIn,omitempty"`
+	Tolerates bool              `json:"tolerates,omitempty"`
+	Anti      []sTerm           `json:"antiAffinity,omitempty"`
+	Aff       []sTerm           `json:"affinity,omitempty"`
+	Spread    []sSpread         `json:"spread,omitempty"`
+	Node      string            `json:"node,omitempty"` // bound pods
+}
+type sNode struct {
+	Name    string            `json:"name"`
+	Labels  map[string]string `json:"labels"`
+	Tainted bool              `json:"tainted,omitempty"`
+}
+type sPool struct {
+	Name    string   `json:"name"`
+	Zones   []string `json:"zones,omitempty"`
+	Team    string   `json:"team,omitempty"` // "", "in", "label"
+	Tainted bool     `json:"tainted,omitempty"`
+	Weight  int32    `json:"weight,omitempty"`
+}
+type sCase struct {
+	Kind      string                         `json:"kind"`
+	KfKey     string                         `json:"kf_key,omitempty"`
+	Pools     []sPool                        `json:"pools"`
+	Nodes     []sNode                        `json:"nodes"`
+	Bound     []sPod                         `json:"bound_pods"`
+	Batch     []sPod                         `json:"batch"`
+	Workers   int                            `json:"workers"`
+	Placement map[string]string              `json:"placement"`
+	NewNodes  map[string]map[string][]string `json:"new_nodes"`
+	Failed    []string                       `json:"unschedulable,omitempty"`
+}
+
+// ------------------------------------------------------------------ k8s objects from the description
+
+func (s sSel) k8s() *metav1.LabelSelector {
+	if s.Nil {
+		return nil
+	}
+	out := &metav1.LabelSelector{MatchLabels: s.ML}
+	for _, e := range s.Exprs {
+		out.MatchExpressions = append(out.MatchExpressions, metav1.LabelSelectorRequirement{Key: e.Key, Operator: metav1.LabelSelectorOperator(e.Op), Values: e.Vals})
+	}
+	return out
+}
+
+func (t sTerm) k8s() corev1.PodAffinityTerm {
+	out := corev1.PodAffinityTerm{TopologyKey: t.Key, LabelSelector: t.Sel.k8s(), Namespaces: t.Namespaces}
+	if t.NsSel != nil {
+		out.NamespaceSelector = t.NsSel.k8s()
+		if out.NamespaceSelector == nil {
+			out.NamespaceSelector = &metav1.LabelSelector{}
+		}
+	}
+	return out
+}
+
+func policy(b *bool) *corev1.NodeInclusionPolicy {
+	if b == nil {
+		return nil
+	}
+	p := corev1.NodeInclusionPolicyIgnore
+	if *b {
+		p = corev1.NodeInclusionPolicyHonor
+	}
+	return &p
+}
+
+func (sp sPod) k8s() *corev1.Pod {
+	p := &corev1.Pod{
+		ObjectMeta: metav1.ObjectMeta{Name: sp.Name, Namespace: sp.NS, UID: types.UID("uid-" + sp.NS + "-" + sp.Name), Labels: sp.Labels,
+			CreationTimestamp: metav1.Time{Time: time.Unix(1_700_000_000, 0)}},
+		Spec: corev1.PodSpec{
+			NodeSelector: sp.NodeSel,
+			Containers: []corev1.Container{{Name: "c", Image: "img", Resources: corev1.ResourceRequirements{
+				Requests: corev1.ResourceList{corev1.ResourceCPU: resource.MustParse(sp.CPU)}}}},
+		},
+	}
+	if sp.Tolerates {
+		p.Spec.Tolerations = []corev1.Toleration{{Key: taintK, Operator: corev1.TolerationOpExists}}
+	}
+	aff := &corev1.Affinity{}
+	used := false
+	var exprs []corev1.NodeSelectorRequirement
+	if len(sp.ZoneIn) > 0 {
+		exprs = append(exprs, corev1.NodeSelectorRequirement{Key: zoneKey, Operator: corev1.NodeSelectorOpIn, Values: sp.ZoneIn})
+	}
+	if len(sp.ZoneNotIn) > 0 {
+		exprs = append(exprs, corev1.NodeSelectorRequirement{Key: zoneKey, Operator: corev1.NodeSelectorOpNotIn, Values: sp.ZoneNotIn})
+	}
+	if len(exprs) > 0 {
+		used = true
+		aff.NodeAffinity = &corev1.NodeAffinity{RequiredDuringSchedulingIgnoredDuringExecution: &corev1.NodeSelector{
+			NodeSelectorTerms: []corev1.NodeSelectorTerm{{MatchExpressions: exprs}}}}
+	}
+	for _, t := range sp.Anti {
+		used = true
+		if aff.PodAntiAffinity == nil {
+			aff.PodAntiAffinity = &corev1.PodAntiAffinity{}
+		}
+		if t.Preferred {
+			aff.PodAntiAffinity.PreferredDuringSchedulingIgnoredDuringExecution = append(aff.PodAntiAffinity.PreferredDuringSchedulingIgnoredDuringExecution,
+				corev1.WeightedPodAffinityTerm{Weight: 10, PodAffinityTerm: t.k8s()})
+		} else {
+			aff.PodAntiAffinity.RequiredDuringSchedulingIgnoredDuringExecution = append(aff.PodAntiAffinity.RequiredDuringSchedulingIgnoredDuringExecution, t.k8s())
+		}
+	}
+	for _, t := range sp.Aff {
+		used = true
+		if aff.PodAffinity == nil {
+			aff.PodAffinity = &corev1.PodAffinity{}
+		}
+		if t.Preferred {
+			aff.PodAffinity.PreferredDuringSchedulingIgnoredDuringExecution = append(aff.PodAffinity.PreferredDuringSchedulingIgnoredDuringExecution,
+				corev1.WeightedPodAffinityTerm{Weight: 10, PodAffinityTerm: t.k8s()})
+		} else {
+			aff.PodAffinity.RequiredDuringSchedulingIgnoredDuringExecution = append(aff.PodAffinity.RequiredDuringSchedulingIgnoredDuringExecution, t.k8s())
+		}
+	}
+	if used {
+		p.Spec.Affinity = aff
+	}
+	for _, s := range sp.Spread {
+		wu := corev1.DoNotSchedule
+		if s.Anyway {
+			wu = corev1.ScheduleAnyway
+		}
+		p.Spec.TopologySpreadConstraints = append(p.Spec.TopologySpreadConstraints, corev1.TopologySpreadConstraint{
+			TopologyKey: s.Key, MaxSkew: s.MaxSkew, MinDomains: s.MinDomains, LabelSelector: s.Sel.k8s(), MatchLabelKeys: s.MLK,
+			WhenUnsatisfiable: wu, NodeTaintsPolicy: policy(s.TaintHonor), NodeAffinityPolicy: policy(s.AffHonor)})
+	}
+	if sp.Node != "" {
+		p.Spec.NodeName = sp.Node
+		p.Status.Phase = corev1.PodRunning
+		p.Status.Conditions = []corev1.PodCondition{{Type: corev1.PodScheduled, Status: corev1.ConditionTrue}}
+	} else {
+		p.Status.Phase = corev1.PodPending
+		p.Status.Conditions = []corev1.PodCondition{{Type: corev1.PodScheduled, Reason: corev1.PodReasonUnschedulable, Status: corev1.ConditionFalse}}
+	}
+	return p
+}
+
+// ------------------------------------------------------------------ Gallina emitters for the final state
+
+func gLabels(m map[string]string) string {
+	return kit.GListOf(kit.SortedKeys(m), func(k string) string { return kit.GPair(kit.GStr(k), kit.GStr(m[k])) })
+}
+
+func gSel(s sSel) string {
+	if s.Nil {
+		return "None"
+	}
+	var es []string
+	for _, k := range kit.SortedKeys(s.ML) {
+		es = append(es, fmt.Sprintf("(%s, In, [%s])", kit.GStr(k), kit.GStr(s.ML[k])))
+	}
+	for _, e := range s.Exprs {
+		es = append(es, fmt.Sprintf("(%s, %s, %s)", kit.GStr(e.Key), e.Op, kit.GStrs(e.Vals)))
+	}
+	return "(Some " + kit.GList(es) + ")"
+}
+
+func gTerm(t sTerm) string {
+	nssel := "None"
+	if t.NsSel != nil {
+		nssel = gSel(*t.NsSel)
+	}
+	return fmt.Sprintf("(mkTerm %s %s %s %s)", kit.GStr(t.Key), kit.GStrs(t.Namespaces), nssel, gSel(t.Sel))
+}
+
+func gSpread(s sSpread) string {
+	mind := "None"
+	if s.MinDomains != nil {
+		mind = "(Some " + kit.GZ(int64(*s.MinDomains)) + ")"
+	}
+	// defaults: nodeTaintsPolicy Ignore, nodeAffinityPolicy Honor
+	th, ah := false, true
+	if s.TaintHonor != nil {
+		th = *s.TaintHonor
+	}
+	if s.AffHonor != nil {
+		ah = *s.AffHonor
+	}
+	return fmt.Sprintf("(mkSpread %s %s %s %s %s %s %s)", kit.GStr(s.Key), kit.GZ(int64(s.MaxSkew)), mind, gSel(s.Sel), kit.GStrs(s.MLK), kit.GBool(th), kit.GBool(ah))
+}
+
+func gPod(sp sPod, node string, isNew bool) string {
+	reqs := scheduling.NewStrictPodRequirements(sp.k8s())
+	var rs []string
+	for _, k := range sorted(reqs.Keys().UnsortedList()) {
+		rs = append(rs, kit.GPair(kit.GStr(k), gReq(reqs.Get(k))))
+	}
+	var tol []string
+	if sp.Tolerates {
+		tol = []string{taintK}
+	}
+	req := func(ts []sTerm) []sTerm { return lo.Filter(ts, func(t sTerm, _ int) bool { return !t.Preferred }) }
+	dns := lo.Filter(sp.Spread, func(s sSpread, _ int) bool { return !s.Anyway })
+	return fmt.Sprintf("(mkPod %s %s %s %s %s %s %s %s %s %s)", kit.GStr(sp.Name), kit.GStr(sp.NS), gLabels(sp.Labels), kit.GStr(node), kit.GBool(isNew),
+		kit.GList(rs), kit.GStrs(tol), kit.GListOf(req(sp.Anti), gTerm), kit.GListOf(req(sp.Aff), gTerm), kit.GListOf(dns, gSpread))
+}
+
+func gNode(name string, isNew bool, lab map[string][]string, tainted bool) string {
+	var taints []string
+	if tainted {
+		taints = []string{taintK}
+	}
+	ls := kit.GListOf(kit.SortedKeys(lab), func(k string) string { return kit.GPair(kit.GStr(k), kit.GStrs(sorted(lab[k]))) })
+	return fmt.Sprintf("(mkNode %s %s %s %s)", kit.GStr(name), kit.GBool(isNew), ls, kit.GStrs(taints))
+}
+
+// ------------------------------------------------------------------ generator
+
+func pickSel(r *kit.Rand, target string) sSel {
+	switch k := r.Intn(20); {
+	case k < 13:
+		return sSel{ML: map[string]string{"app": target}}
+	case k < 15:
+		return sSel{Exprs: []sExpr{{Key: "app", Op: "In", Vals: sorted([]string{target, kit.Pick(r, []string{"a", "b", "c"})})}}}
+	case k < 16:
+		return sSel{Exprs: []sExpr{{Key: "app", Op: "NotIn", Vals: []string{kit.Pick(r, []string{"a", "b", "c"})}}}}
+	case k < 17:
+		return sSel{Exprs: []sExpr{{Key: "app", Op: "Exists"}}}
+	case k < 18:
+		return sSel{} // empty selector: every pod
+	case k < 19:
+		return sSel{Nil: true}
+	default:
+		return sSel{ML: map[string]string{"app": target, "tier": "t"}}
+	}
+}
+
+func pickNs(r *kit.Rand, t *sTerm) {
+	switch k := r.Intn(12); {
+	case k < 8:
+	case k < 9:
+		t.Namespaces = []string{"ns2"}
+	case k < 10:
+		t.Namespaces = []string{"ns1", "ns2"}
+	case k < 11:
+		t.NsSel = &sSel{ML: map[string]string{"team": "b"}}
+	default:
+		t.NsSel = &sSel{}
+	}
+}
+
+func ptr[T any](v T) *T { return &v }
+
+func genScenario(r *kit.Rand) sCase {
+	sc := sCase{Kind: "solve"}
+	// pools
+	p1 := sPool{Name: "pool-a", Weight: 10}
+	if r.Chance(1, 3) {
+		p1.Zones = subset(r, allZones, 1, 3)
+	}
+	p1.Team = kit.Pick(r, []string{"", "", "in", "label"})
+	sc.Pools = []sPool{p1}
+	if r.Chance(1, 3) {
+		p2 := sPool{Name: "pool-b", Weight: 1, Tainted: r.Chance(1, 2), Team: kit.Pick(r, []string{"", "label"})}
+		if r.Chance(1, 2) {
+			p2.Zones = subset(r, allZones, 1, 2)
+		}
+		sc.Pools = append(sc.Pools, p2)
+	}
+	// existing nodes
+	nNodes := kit.Pick(r, []int{0, 0, 1, 2, 3})
+	for i := 0; i < nNodes; i++ {
+		name := fmt.Sprintf("node-%d", i)
+		lab := map[string]string{hostKey: name, ctKey: "on-demand"}
+		if !r.Chance(1, 8) {
+			lab[zoneKey] = kit.Pick(r, allZones)
+		}
+		if r.Chance(1, 3) {
+			lab[teamKey] = kit.Pick(r, []string{"x", "y"})
+		}
+		sc.Nodes = append(sc.Nodes, sNode{Name: name, Labels: lab, Tainted: r.Chance(1, 8)})
+	}
+	apps := []string{"a", "b", "c"}
+	// bound pods
+	if nNodes > 0 {
+		nb := r.Range(0, 4)
+		for i := 0; i < nb; i++ {
+			app := kit.Pick(r, apps)
+			bp := sPod{Name: fmt.Sprintf("bound-%d", i), NS: kit.Pick(r, []string{"ns1", "ns1", "ns1", "ns2"}), Labels: map[string]string{"app": app}, CPU: "100m",
+				Node: kit.Pick(r, sc.Nodes).Name, Tolerates: true}
+			if r.Chance(1, 3) {
+				t := sTerm{Key: kit.Pick(r, []string{zoneKey, hostKey}), Sel: pickSel(r, kit.Pick(r, apps))}
+				pickNs(r, &t)
+				bp.Anti = []sTerm{t}
+			}
+			sc.Bound = append(sc.Bound, bp)
+		}
+	}
+	// batch: deployments
+	nDep := r.Range(1, 3)
+	family := r.Intn(8) // stress one family per case, the rest mixed
+	for d := 0; d < nDep; d++ {
+		app := apps[d]
+		replicas := r.Range(1, 4)
+		tmpl := sPod{NS: kit.Pick(r, []string{"ns1", "ns1", "ns1", "ns2"}), Labels: map[string]string{"app": app}, CPU: kit.Pick(r, []string{"300m", "900m", "1700m", "2500m"})}
+		if r.Chance(1, 4) {
+			tmpl.Labels["tier"] = "t"
+		}
+		if r.Chance(1, 5) {
+			tmpl.Labels["rev"] = kit.Pick(r, []string{"1", "2"})
+		}
+		other := apps[(d+1+r.Intn(2))%3]
+		target := func() string {
+			if r.Chance(2, 3) {
+				return app
+			}
+			return other
+		}
+		topo := func() string { return kit.Pick(r, []string{zoneKey, zoneKey, hostKey, hostKey, ctKey}) }
+		kinds := []int{}
+		switch {
+		case family < 2 && d == 0:
+			kinds = []int{0}
+		case family < 4 && d == 0:
+			kinds = []int{1}
+		case family < 6 && d == 0:
+			kinds = []int{2}
+		default:
+			for k := 0; k < 3; k++ {
+				if r.Chance(1, 3) {
+					kinds = append(kinds, k)
+				}
+			}
+		}
+		for _, k := range kinds {
+			switch k {
+			case 0:
+				t := sTerm{Key: topo(), Sel: pickSel(r, target()), Preferred: r.Chance(1, 6)}
+				pickNs(r, &t)
+				tmpl.Anti = append(tmpl.Anti, t)
+				if r.Chance(1, 5) {
+					tmpl.Anti = append(tmpl.Anti, sTerm{Key: topo(), Sel: pickSel(r, target())})
+				}
+			case 1:
+				t := sTerm{Key: kit.Pick(r, []string{zoneKey, zoneKey, hostKey, ctKey}), Sel: pickSel(r, target()), Preferred: r.Chance(1, 6)}
+				pickNs(r, &t)
+				tmpl.Aff = append(tmpl.Aff, t)
+			case 2:
+				s := sSpread{Key: kit.Pick(r, []string{zoneKey, zoneKey, zoneKey, hostKey, ctKey}), MaxSkew: int32(r.Range(1, 2)), Sel: sSel{ML: map[string]string{"app": app}}, Anyway: r.Chance(1, 6)}
+				if r.Chance(1, 3) {
+					s.MinDomains = ptr(int32(r.Range(1, 4)))
+				}
+				if r.Chance(1, 4) {
+					s.MLK = []string{"rev"}
+				}
+				if r.Chance(1, 3) {
+					s.TaintHonor = ptr(r.Bool())
+				}
+				if r.Chance(1, 3) {
+					s.AffHonor = ptr(r.Bool())
+				}
+				tmpl.Spread = append(tmpl.Spread, s)
+				if r.Chance(1, 4) {
+					tmpl.Spread = append(tmpl.Spread, sSpread{Key: hostKey, MaxSkew: int32(r.Range(1, 2)), Sel: sSel{ML: map[string]string{"app": app}}})
+				}
+			}
+		}
+		switch r.Intn(10) {
+		case 0:
+			tmpl.NodeSel = map[string]string{zoneKey: kit.Pick(r, allZones)}
+		case 1:
+			tmpl.ZoneIn = subset(r, allZones, 1, 2)
+		case 2:
+			tmpl.ZoneNotIn = subset(r, allZones, 1, 1)
+		case 3:
+			if sc.Pools[0].Team != "" {
+				tmpl.NodeSel = map[string]string{teamKey: "x"}
+			}
+		}
+		tmpl.Tolerates = r.Chance(1, 3)
+		for i := 0; i < replicas; i++ {
+			p := tmpl
+			p.Name = fmt.Sprintf("%s-%d", app, i)
+			p.Labels = lo.Assign(tmpl.Labels)
+			// a second replica set of the same deployment shape pinned elsewhere (same constraints, other node selector)
+			if i >= 2 && r.Chance(1, 4) && tmpl.NodeSel == nil && len(tmpl.ZoneIn) == 0 {
+				p.ZoneIn = subset(r, allZones, 1, 2)
+			}
+			sc.Batch = append(sc.Batch, p)
+		}
+	}
+	sc.Workers = kit.Pick(r, []int{1, 1, 4})
+	return sc
+}
+
+// ------------------------------------------------------------------ run one scenario on the real scheduler
+
+func buildCatalog() []*cloudprovider.InstanceType {
+	mk := func(name string, cpu, mem string, pods string) *cloudprovider.InstanceType {
+		var ofs []cloudprovider.Offering
+		for _, z := range allZones {
+			for _, ct := range []string{"on-demand", "spot"} {
+				ofs = append(ofs, cloudprovider.Offering{Available: true, Price: fake.PriceFromResources(corev1.ResourceList{corev1.ResourceCPU: resource.MustParse(cpu)}),
+					Requirements: scheduling.NewLabelRequirements(map[string]string{ctKey: ct, zoneKey: z})})
+			}
+		}
+		return fake.NewInstanceType(name, fake.WithResources(corev1.ResourceList{corev1.ResourceCPU: resource.MustParse(cpu), corev1.ResourceMemory: resource.MustParse(mem), corev1.ResourcePods: resource.MustParse(pods)}),
+			fake.WithOfferings(ofs...))
+	}
+	return []*cloudprovider.InstanceType{mk("small", "2", "8Gi", "10"), mk("large", "4", "16Gi", "20")}
+}
+
+func poolReqs(p sPool) (reqs []v1.NodeSelectorRequirementWithMinValues, labels map[string]string) {
+	labels = map[string]string{}
+	if len(p.Zones) > 0 {
+		reqs = append(reqs, v1.NodeSelectorRequirementWithMinValues{Key: zoneKey, Operator: corev1.NodeSelectorOpIn, Values: p.Zones})
+	}
+	switch p.Team {
+	case "in":
+		reqs = append(reqs, v1.NodeSelectorRequirementWithMinValues{Key: teamKey, Operator: corev1.NodeSelectorOpIn, Values: []string{"x", "y"}})
+	case "label":
+		labels[teamKey] = "x"
+	}
+	return
+}
+
+// universe mirrors what the pools can provision: key -> domain -> taint sets
+func universe(sc sCase) map[string]map[string][][]string {
+	u := map[string]map[string][][]string{}
+	add := func(k, d string, tainted bool) {
+		if u[k] == nil {
+			u[k] = map[string][][]string{}
+		}
+		ts := []string{}
+		if tainted {
+			ts = []string{taintK}
+		}
+		u[k][d] = append(u[k][d], ts)
+	}
+	for _, p := range sc.Pools {
+		zs := p.Zones
+		if len(zs) == 0 {
+			zs = allZones
+		}
+		for _, z := range zs {
+			add(zoneKey, z, p.Tainted)
+		}
+		for _, ct := range []string{"on-demand", "spot"} {
+			add(ctKey, ct, p.Tainted)
+		}
+		switch p.Team {
+		case "in":
+			add(teamKey, "x", p.Tainted)
+			add(teamKey, "y", p.Tainted)
+		case "label":
+			add(teamKey, "x", p.Tainted)
+		}
+	}
+	return u
+}
+
+var debugDump bool
+
+func runSolve(c *kit.Ctx, r *kit.Rand, idx int) {
+	sc := genScenario(r)
+	runScenario(c, sc)
+}
+
+func runScenario(c *kit.Ctx, sc sCase) {
+	ctx := kit.Context()
+	clk := clock.NewFakeClock(time.Unix(1_700_000_100, 0))
+	cl := kit.NewClient(interceptor.Funcs{})
+	cp := fake.NewCloudProvider()
+	cp.InstanceTypes = buildCatalog()
+	for _, ns := range []struct{ n, team string }{{"ns1", "a"}, {"ns2", "b"}} {
+		kit.Apply(ctx, cl, &corev1.Namespace{ObjectMeta: metav1.ObjectMeta{Name: ns.n, Labels: map[string]string{"team": ns.team}}})
+	}
+	for _, p := range sc.Pools {
+		reqs, labels := poolReqs(p)
+		np := test.NodePool(v1.NodePool{ObjectMeta: metav1.ObjectMeta{Name: p.Name}, Spec: v1.NodePoolSpec{Weight: lo.ToPtr(p.Weight),
+			Template: v1.NodeClaimTemplate{ObjectMeta: v1.ObjectMeta{Labels: labels}, Spec: v1.NodeClaimTemplateSpec{Requirements: reqs}}}})
+		if p.Tainted {
+			np.Spec.Template.Spec.Taints = []corev1.Taint{{Key: taintK, Value: "true", Effect: corev1.TaintEffectNoSchedule}}
+		}
+		kit.Apply(ctx, cl, np)
+	}
+	cluster := state.NewCluster(clk, cl, cp)
+	for _, n := range sc.Nodes {
+		node := test.Node(test.NodeOptions{ObjectMeta: metav1.ObjectMeta{Name: n.Name, Labels: n.Labels}, ProviderID: "fake://" + n.Name,
+			Allocatable: corev1.ResourceList{corev1.ResourceCPU: resource.MustParse("4"), corev1.ResourceMemory: resource.MustParse("16Gi"), corev1.ResourcePods: resource.MustParse("20")}})
+		if n.Tainted {
+			node.Spec.Taints = []corev1.Taint{{Key: taintK, Value: "true", Effect: corev1.TaintEffectNoSchedule}}
+		}
+		kit.Apply(ctx, cl, node)
+		if err := cluster.UpdateNode(ctx, node); err != nil {
+			panic(err)
+		}
+	}
+	for _, bp := range sc.Bound {
+		p := bp.k8s()
+		kit.Apply(ctx, cl, p)
+		if err := cluster.UpdatePod(ctx, p); err != nil {
+			panic(err)
+		}
+	}
+	var pods []*corev1.Pod
+	byUID := map[types.UID]sPod{}
+	for _, sp := range sc.Batch {
+		p := sp.k8s()
+		kit.Apply(ctx, cl, p)
+		pods = append(pods, p)
+		byUID[p.UID] = sp
+	}
+	prov := provisioning.NewProvisioner(cl, events.NewRecorder(&record.FakeRecorder{}), cp, cluster, clk, deviceallocation.NewController(cl), virtualpods.NewVirtualPodCache(cl))
+	s, err := prov.NewScheduler(ctx, pods, cluster.DeepCopyNodes().Active(), sets.New[types.UID](), provscheduling.NumConcurrentReconciles(sc.Workers))
+	if err != nil {
+		panic(err)
+	}
+	sctx, cancel := context.WithTimeout(ctx, time.Minute)
+	results, err := s.Solve(sctx, pods)
+	cancel()
+	if err != nil {
+		panic(err)
+	}
+
+	if debugDump {
+		for p, e := range results.PodErrors {
+			fmt.Fprintf(os.Stderr, "ERR %s/%s: %v\n", p.Namespace, p.Name, e)
+		}
+		for i, nc := range results.NewNodeClaims {
+			fmt.Fprintf(os.Stderr, "NEW new-%d pool=%s reqs=%v pods=%v\n", i, nc.NodePoolName, nc.Requirements, lo.Map(nc.Pods, func(p *corev1.Pod, _ int) string { return p.Name }))
+		}
+		for _, en := range results.ExistingNodes {
+			fmt.Fprintf(os.Stderr, "EXISTING %s pods=%v\n", en.Name(), lo.Map(en.Pods, func(p *corev1.Pod, _ int) string { return p.Name }))
+		}
+	}
+	// ---- final state
+	univ := universe(sc)
+	sc.Placement = map[string]string{}
+	sc.NewNodes = map[string]map[string][]string{}
+	var gnodes, gpods []string
+	nodeTainted := map[string]bool{}
+	for _, n := range sc.Nodes {
+		lab := map[string][]string{}
+		for k, v := range n.Labels {
+			lab[k] = []string{v}
+		}
+		gnodes = append(gnodes, gNode(n.Name, false, lab, n.Tainted))
+		nodeTainted[n.Name] = n.Tainted
+	}
+	for _, bp := range sc.Bound {
+		gpods = append(gpods, gPod(bp, bp.Node, false))
+	}
+	placedOn := map[string][]sPod{} // node -> new pods
+	for _, en := range results.ExistingNodes {
+		for _, p := range en.Pods {
+			sp := byUID[p.UID]
+			sc.Placement[sp.NS+"/"+sp.Name] = en.Name()
+			gpods = append(gpods, gPod(sp, en.Name(), true))
+			placedOn[en.Name()] = append(placedOn[en.Name()], sp)
+		}
+	}
+	poolByName := lo.SliceToMap(sc.Pools, func(p sPool) (string, sPool) { return p.Name, p })
+	newDomains := map[string]map[string][]string{}
+	for i, nc := range results.NewNodeClaims {
+		name := fmt.Sprintf("new-%d", i)
+		lab := map[string][]string{hostKey: {name}}
+		zs, cts := sets.New[string](), sets.New[string]()
+		for _, it := range nc.InstanceTypeOptions {
+			for _, o := range it.Offerings {
+				if o.Available && nc.Requirements.IsCompatible(o.Requirements, scheduling.AllowUndefinedWellKnownLabels) {
+					zs.Insert(o.Zone())
+					cts.Insert(o.CapacityType())
+				}
+			}
+		}
+		lab[zoneKey], lab[ctKey] = sets.List(zs), sets.List(cts)
+		if nc.Requirements.Has(teamKey) && nc.Requirements.Get(teamKey).Operator() == corev1.NodeSelectorOpIn {
+			lab[teamKey] = sorted(nc.Requirements.Get(teamKey).Values())
+		}
+		gnodes = append(gnodes, gNode(name, true, lab, poolByName[nc.NodePoolName].Tainted))
+		sc.NewNodes[name] = lab
+		newDomains[name] = lab
+		for _, p := range nc.Pods {
+			sp := byUID[p.UID]
+			sc.Placement[sp.NS+"/"+sp.Name] = name
+			gpods = append(gpods, gPod(sp, name, true))
+			placedOn[name] = append(placedOn[name], sp)
+		}
+	}
+	for p := range results.PodErrors {
+		sc.Failed = append(sc.Failed, p.Namespace+"/"+p.Name)
+	}
+	sort.Strings(sc.Failed)
+
+	var guniv []string
+	for _, k := range kit.SortedKeys(univ) {
+		ds := kit.GListOf(kit.SortedKeys(univ[k]), func(d string) string {
+			return kit.GPair(kit.GStr(d), kit.GListOf(univ[k][d], kit.GStrs))
+		})
+		guniv = append(guniv, kit.GPair(kit.GStr(k), ds))
+	}
+	gns := `[("ns1", [("team", "a")]); ("ns2", [("team", "b")])]`
+	term := fmt.Sprintf("CaseS (mkWorld %s %s %s %s)", gns, kit.GList(gnodes), kit.GList(gpods), kit.GList(guniv))
+
+	// ---- distribution buckets and the known-finding shape
+	feat := map[string]bool{}
+	for _, sp := range sc.Batch {
+		for _, t := range sp.Anti {
+			feat["anti:"+short(t.Key)+lo.Ternary(t.Preferred, ":preferred", ":required")] = true
+			if len(t.Namespaces) > 0 || t.NsSel != nil {
+				feat["term:namespaces"] = true
+			}
+		}
+		for _, t := range sp.Aff {
+			feat["affinity:"+short(t.Key)+lo.Ternary(t.Preferred, ":preferred", ":required")] = true
+		}
+		for _, s := range sp.Spread {
+			feat["spread:"+short(s.Key)+lo.Ternary(s.Anyway, ":anyway", ":dns")] = true
+			if s.MinDomains != nil {
+				feat["spread:minDomains"] = true
+			}
+			if len(s.MLK) > 0 {
+				feat["spread:matchLabelKeys"] = true
+			}
+			if s.TaintHonor != nil || s.AffHonor != nil {
+				feat["spread:policies"] = true
+			}
+		}
+	}
+	for _, bp := range sc.Bound {
+		if len(bp.Anti) > 0 {
+			feat["bound-pod-with-anti-affinity"] = true
+		}
+	}
+	for f := range feat {
+		c.Count("B:" + f)
+	}
+	c.Count(fmt.Sprintf("B:new-claims=%d", min(len(results.NewNodeClaims), 4)))
+	if len(placedOn) > 0 && lo.SomeBy(sc.Nodes, func(n sNode) bool { return len(placedOn[n.Name]) > 0 }) {
+		c.Count("B:placed-on-existing-node")
+	}
+	undet := false
+	for _, lab := range newDomains {
+		if len(lab[zoneKey]) > 1 {
+			undet = true
+		}
+	}
+	if undet {
+		c.Count("B:new-node-zone-undetermined")
+	}
+	if len(sc.Failed) > 0 {
+		c.Count("B:some-pods-unschedulable")
+	}
+	if len(sc.Failed) == len(sc.Batch) {
+		c.Count("B:nothing-placed")
+	}
+	sc.KfKey = affinityFindingShape(sc, newDomains)
+	if sc.KfKey != "" {
+		c.Count("B:shape:" + sc.KfKey)
+	}
+	key := ""
+	if len(sc.Placement) > 0 && len(feat) > 0 {
+		key = fmt.Sprintf("B:%v|%v", kit.SortedKeys(feat), sc.Placement)
+	}
+	c.AddCase(term, sc, key)
+}
+
+func short(k string) string {
+	switch k {
+	case zoneKey:
+		return "zone"
+	case hostKey:
+		return "hostname"
+	case ctKey:
+		return "capacity-type"
+	}
+	return k
+}
+
+// affinityFindingShape recognises the input shape of finding F11: pods with a REQUIRED pod-affinity term on a
+// non-hostname key whose selector selects the pod itself, of which at least one was placed on a new node that is
+// still undetermined for that key, while another one sits on a different node.
+func affinityFindingShape(sc sCase, newDomains map[string]map[string][]string) string {
+	for _, sp := range sc.Batch {
+		for _, t := range sp.Aff {
+			if t.Preferred || t.Key == hostKey || !selMatches(t.Sel, sp.Labels) {
+				continue
+			}
+			myNode, ok := sc.Placement[sp.NS+"/"+sp.Name]
+			if !ok {
+				continue
+			}
+			lab, isNew := newDomains[myNode]
+			if !isNew || len(lab[t.Key]) < 2 {
+				continue
+			}
+			for _, other := range sc.Batch {
+				on, ok := sc.Placement[other.NS+"/"+other.Name]
+				if ok && on != myNode && selMatches(t.Sel, other.Labels) && strings.HasPrefix(on, "new-") {
+					return kfAffinityTwoDomains
+				}
+			}
+		}
+	}
+	return ""
+}
+
+func selMatches(s sSel, labels map[string]string) bool {
+	if s.Nil {
+		return false
+	}
+	for k, v := range s.ML {
+		if labels[k] != v {
+			return false
+		}
+	}
+	for _, e := range s.Exprs {
+		v, ok := labels[e.Key]
+		switch e.Op {
+		case "In":
+			if !ok || !lo.Contains(e.Vals, v) {
+				return false
+			}
+		case "NotIn":
+			if ok && lo.Contains(e.Vals, v) {
+				return false
+			}
+		case "Exists":
+			if !ok {
+				return false
+			}
+		case "DoesNotExist":
+			if ok {
+				return false
+			}
+		}
+	}
+	return true
+}
